@@ -45,6 +45,15 @@ class Ctx:
         os.makedirs(wd, exist_ok=True)
         cfgname = "gen_%s.cfg" % tag
         r = self._tlc_with_cfg(module, cfgname, cfg_text, wd, workers or vlib.NCPU, timeout, heap, cont=False)
+        # TLC 1.8 with many workers very rarely throws a spurious evaluation exception (a record read while another
+        # worker normalises it; seen once in some hundred runs, never reproducible).  An evaluation error of a
+        # deterministic specification is reproducible, so the run is repeated: only an error that comes back counts.
+        # Violations of invariants or properties are never retried.
+        for attempt in range(2):
+            if r.errors and not r.violations and any("unexpected exception" in e or "Attempted to" in e for e in r.errors):
+                log("  design %-28s TLC evaluation exception, repeating the run (%d)" % (tag, attempt + 1))
+                self.extra.setdefault("tlc_retries", []).append({"tag": tag, "error": r.errors[0][:300]})
+                r = self._tlc_with_cfg(module, cfgname, cfg_text, wd, workers or vlib.NCPU, timeout, heap, cont=False)
         if r.errors or r.violations:
             raise Infra("design configuration %s (%s) does not pass: violations=%s errors=%s\n%s" %
                         (module, tag, [v[0] for v in r.violations][:5], r.errors[:2], r.out[-2500:]))
@@ -77,7 +86,12 @@ class Ctx:
         def one(sh):
             wd = os.path.join(self.outdir, "trace-" + tag, os.path.basename(sh) + ".tlc")
             shutil.rmtree(wd, ignore_errors=True)
-            return sh, self._tlc_with_cfg(module, cfgname, cfg_text, wd, 2, timeout, heap, True, env={envname: sh})
+            r = self._tlc_with_cfg(module, cfgname, cfg_text, wd, 2, timeout, heap, True, env={envname: sh})
+            if r.errors:     # (see design(): an evaluation error must come back to count)
+                self.extra.setdefault("tlc_retries", []).append({"tag": tag, "error": r.errors[0][:300]})
+                shutil.rmtree(wd, ignore_errors=True)
+                r = self._tlc_with_cfg(module, cfgname, cfg_text, wd, 1, timeout, heap, True, env={envname: sh})
+            return sh, r
 
         nrec = 0
         t0 = time.time()
@@ -293,12 +307,14 @@ def engine_check(ctx, P, sample_pred, seed_off):
         ctx.design("MCSnapshot", mc_snapshot_cfg(1, 2, 5, True, [inv_d]), "pods-1ord")
         sh, _ = snap_trace(ctx, "pods-3ord", "pods-del", 2, 3, 5, 60000, [inv_t], seed_off)
         sh2, _ = snap_trace(ctx, "pods-4ord", "pods", 3, 3, 5, 40000, [inv_t], seed_off + 1)
+        snap_trace(ctx, "pods-8to11", "pods-wide", 3, 4, 5, 30000, [inv_t], seed_off + 3)
     else:
         ctx.design("MCSnapshot", mc_snapshot_cfg(2, 2, 3, False, [inv_d]), "pods-3ord-3ph")
         ctx.design("MCSnapshot", mc_snapshot_cfg(1, 2, 5, True, [inv_d]), "pods-2ord-5ph-del")
         sh, _ = snap_trace(ctx, "pods-3ord", "pods-del", 2, 3, 5, 900000, [inv_t], seed_off)
         sh2, _ = snap_trace(ctx, "pods-4ord", "pods", 3, 3, 5, 600000, [inv_t], seed_off + 1)
         sh3, _ = snap_trace(ctx, "pods-2ord-exh", "pods-del", 1, 2, 5, 0, [inv_t], seed_off + 2)
+        snap_trace(ctx, "pods-8to11", "pods-wide", 3, 4, 5, 400000, [inv_t], seed_off + 3)
         ctx.exhaustive = True
         ctx.extra["exhaustive_note"] = "domain pods-del(ord<=1) enumerated completely through the real controller; larger domains sampled"
     ctx.add_samples(sh, 2, sample_pred)
@@ -329,7 +345,7 @@ def check_C12(ctx):
     snap_trace(ctx, "faults-pods", "faults-pods", 2, 2, 5, 25000 if ctx.quick else 400000, ["P_C12"], 121)
     snap_trace(ctx, "faults2-pods", "faults2-pods", 2, 2, 5, 15000 if ctx.quick else 300000, ["P_C12"], 122)
     # history clauses: stale caches, several revisions in flight, exact census at the fixed point
-    cluster_check(ctx, ["B_C12"], ["P_C12"], invariants=["StatusTruth"], properties=[], scale=0.7)
+    cluster_check(ctx, ["B_C12"], ["P_C12"], invariants=["StatusTruth"], properties=[], scale=0.7, sim_claims=2)
 
 
 def check_C14(ctx):
@@ -425,7 +441,7 @@ def check_C09(ctx):
 
 
 def cluster_C09(ctx):
-    cluster_check(ctx, ["B_C09"], ["P_C09"], invariants=[], properties=["Converges"], faults=1)
+    cluster_check(ctx, ["B_C09"], ["P_C09"], invariants=[], properties=["Converges"], faults=1, sim_claims=2)
 
 
 def check_C08(ctx):
@@ -468,6 +484,11 @@ def check_C16(ctx):
     ctx.extra["domains"] = [meta]
     ctx.add_samples(shards[:1], 1, lambda r: r["kind"] == "update" and len(r["enq"]) == 2)
     ctx.add_samples(shards[1:], 2, lambda r: len(r["ops"]) >= 3 and "PfailE" in r["ops"])
+    # end to end: the cluster model with reconciles driven by the work queue alone (handlers fire on cache refreshes, failed
+    # reconciles come back through the rate limiter, no resync) still converges and the queue drains; the same on the real
+    # controller (VerifProcessNextWorkItem), with the queue's state compared after every step
+    cluster_check(ctx, ["B_C16"], ["P_C03"], invariants=[], properties=["Converges", "QueueDrains"], faults=0 if q else 1, edits=1,
+                  scale=0.7, sim_claims=2, queue=True)
     ctx.assumptions.append("the event table is enumerated completely for two sets with overlapping selectors; queue/worker op sequences are "
                            "enumerated up to the stated length on the real client-go work queue; a sibling set with an invalid selector "
                            "(which makes orphan events enqueue nothing) is outside the property's stated quantifier and not modelled")
@@ -610,16 +631,20 @@ def check_C06(ctx):
     if not q:
         ctx.exhaustive = True
     ctx.add_samples(sh1, 2, has_call("create", "persistentvolumeclaims"))
+    # the history clause: over whole behaviours (scale-in, scale-out, restarts, lagging claim cache) claims are created
+    # before their pod, once, and never removed or replaced
+    cluster_check(ctx, ["B_C06"], ["P_C06"], invariants=["ClaimsSane"], properties=["ClaimsKept", "ClaimsFirst", "Converges"],
+                  faults=0 if q else 1, fails=0, edits=1, scale=0.5, claims=1)
 
 
 # =================================================================================
 # the cluster engine: Cluster.tla (design), SimCluster (behaviours), harness sim, TraceCluster
 # =================================================================================
 
-def cluster_consts(maxord, maxrep, tmpls, edits, faults, fails, maxpos, mode, extra=""):
+def cluster_consts(maxord, maxrep, tmpls, edits, faults, fails, maxpos, mode, extra="", claims="{0}", queue=False):
     return ("CONSTANTS MaxOrd = %d\n MaxRep = %d\n Tmpls = {%s}\n Policies = {\"OrderedReady\", \"Parallel\"}\n"
-            " Strats = {\"RollingUpdate\", \"OnDelete\"}\n Edits = %d\n Faults = %d\n Fails = %d\n MaxFaultPos = %d\n InitMode = \"%s\"\n%s"
-            % (maxord, maxrep, ", ".join('"%s"' % t for t in tmpls), edits, faults, fails, maxpos, mode, extra))
+            " Strats = {\"RollingUpdate\", \"OnDelete\"}\n Edits = %d\n Faults = %d\n Fails = %d\n MaxFaultPos = %d\n QueueDriven = %s\n ClaimCounts = %s\n InitMode = \"%s\"\n%s"
+            % (maxord, maxrep, ", ".join('"%s"' % t for t in tmpls), edits, faults, fails, maxpos, "TRUE" if queue else "FALSE", claims, mode, extra))
 
 
 def extract_behaviours(text, limit):
@@ -634,11 +659,14 @@ def extract_behaviours(text, limit):
     return out
 
 
-def cluster_check(ctx, beh_invs, rec_invs, invariants, properties, faults=0, fails=0, edits=1, scale=1.0, mode="any"):
+def cluster_check(ctx, beh_invs, rec_invs, invariants, properties, faults=0, fails=0, edits=1, scale=1.0, mode="any", claims=0, sim_claims=None, queue=False):
     """design: exhaustive TLC run of Cluster.tla (small constants, temporal properties under fairness);
     binding: behaviours from TLC's simulator and from the seeded random driver are executed on the real
     controller; TraceCluster validates each behaviour, TraceSnap each of its reconciles."""
     q = ctx.quick
+    cc = {0: "{0}", 1: "{1}", 2: "{0, 1}"}[claims]
+    sim_claims = claims if sim_claims is None else sim_claims      # the replayed behaviours may mix sets with and without claims
+    scc = {0: "{0}", 1: "{1}", 2: "{0, 1}"}[sim_claims]
     body = "SPECIFICATION Spec\nVIEW View\nCHECK_DEADLOCK FALSE\n" + "".join("INVARIANT %s\n" % i for i in invariants) + \
         "".join("PROPERTY %s\n" % p for p in properties)
     if mode == "migration":
@@ -646,13 +674,13 @@ def cluster_check(ctx, beh_invs, rec_invs, invariants, properties, faults=0, fai
         if not q:
             ctx.design("Cluster", cluster_consts(1, 1, ["t0", "t1"], 0, 0, 0, 3, "migration") + body, "migration-2ord", heap="24g", timeout=3400)
     else:
-        ctx.design("Cluster", cluster_consts(1, 1, ["t0", "t1"], edits, faults, fails, 3, "empty") + body, "cluster-2ord", heap="16g")
+        ctx.design("Cluster", cluster_consts(1, 1, ["t0", "t1"], edits, faults, fails, 3, "empty", claims=cc, queue=queue) + body, "cluster-2ord" + ("-queue" if queue else ""), heap="16g")
         if not q:
-            ctx.design("Cluster", cluster_consts(1, 2, ["t0", "t1"], 1, faults, 1, 3, "empty") + body, "cluster-2ord-rep2", heap="24g", timeout=3400)
+            ctx.design("Cluster", cluster_consts(1, 2, ["t0", "t1"], 1, faults, 1, 3, "empty", claims=cc, queue=queue) + body, "cluster-2ord-rep2" + ("-queue" if queue else ""), heap="24g", timeout=3400)
     # behaviours from the model (direction A)
     ntlc, nrand, depth = (int(120 * scale), int(120 * scale), 24) if q else (int(1500 * scale), int(3000 * scale), 30)
     wd = os.path.join(ctx.outdir, "simulate")
-    simconsts = cluster_consts(2, 3, ["t0", "t1", "t2"], 3, 2, 2, 5, "any", " Depth = %d\n" % depth) if mode == "any" else \
+    simconsts = cluster_consts(2, 3, ["t0", "t1", "t2"], 3, 2, 2, 5, "any", " Depth = %d\n" % depth, claims=scc, queue=queue) if mode == "any" else \
         cluster_consts(2, 3, ["t0", "t1", "t2"], 0, 1, 1, 5, "migration", " Depth = %d\n" % depth)
     simcfg = simconsts + \
         "INIT SimInit\nNEXT SimNext\nINVARIANT Emit\nINVARIANT StatusTruth\nINVARIANT QuietPods\nCHECK_DEADLOCK FALSE\n"
@@ -674,10 +702,13 @@ def cluster_check(ctx, beh_invs, rec_invs, invariants, properties, faults=0, fai
         ctx.transitions += int(m.group(1))
     log("  simul. %-28s %d behaviours of depth %d from TLC (%s states checked), %.1fs" % ("SimCluster", len(behs), depth, m.group(1) if m else "?", time.time() - t0))
     d, shards, meta = ctx.harness(["sim", "--in", bf, "--random", str(nrand), "--maxord", "2", "--depth", str(depth),
-                                   "--seed", str(vlib.seed()), "--workers", str(vlib.NCPU)] + (["--migration"] if mode == "migration" else []), "behaviours")
+                                   "--seed", str(vlib.seed()), "--workers", str(vlib.NCPU), "--claims", str(sim_claims)] +
+                                  (["--migration"] if mode == "migration" else []) + (["--queue"] if queue else []), "behaviours")
     tcfg = open(os.path.join(vlib.SPEC, "Trace_Cluster.cfg")).read() + "INVARIANT B_Conf\n" + "".join("INVARIANT %s\n" % i for i in beh_invs)
+    if queue:
+        tcfg = tcfg.replace("QueueDriven = FALSE", "QueueDriven = TRUE")
     ctx.trace("TraceCluster", tcfg, shards, "behaviours", set(beh_invs), conf_inv="B_Conf",
-              replay=lambda rec: {"kind": "beh", "id": rec.get("id"), "acts": [s["act"] for s in rec["steps"]]}, heap="4g")
+              replay=lambda rec: {"kind": "beh", "id": rec.get("id"), "queue": queue, "acts": [s["act"] for s in rec["steps"]]}, heap="4g")
     # every reconcile of every behaviour, judged like the single reconciles of the snapshot engine
     recs = sorted(glob.glob(os.path.join(d, "recs-*.ndjson")))
     recs = [x for x in recs if os.path.getsize(x) > 0]
@@ -695,10 +726,12 @@ def replay_beh(prop, inv, rp, wd):
     bf = os.path.join(wd, "beh.ndjson")
     with open(bf, "w") as f:
         f.write(json.dumps({"acts": rp["acts"]}) + "\n")
-    vlib.run_harness(["sim", "--in", bf, "--random", "0", "--workers", "1", "--out", os.path.join(wd, "rec")])
+    vlib.run_harness(["sim", "--in", bf, "--random", "0", "--workers", "1", "--out", os.path.join(wd, "rec")] + (["--queue"] if rp.get("queue") else []))
     sh = os.path.join(wd, "rec", "shard-00.ndjson")
     c = Ctx.__new__(Ctx)
     tcfg = open(os.path.join(vlib.SPEC, "Trace_Cluster.cfg")).read() + "INVARIANT %s\n" % inv
+    if rp.get("queue"):
+        tcfg = tcfg.replace("QueueDriven = FALSE", "QueueDriven = TRUE")
     r = Ctx._tlc_with_cfg(c, "TraceCluster", "replay.cfg", tcfg, os.path.join(wd, "tlc"), 1, 600, "2g", True, env={"VERIF_TRACE": sh})
     if r.errors:
         return False, "replay could not be evaluated: " + r.errors[0][:300]
@@ -709,7 +742,7 @@ REPLAYERS["beh"] = replay_beh
 
 
 def check_C02(ctx):
-    cluster_check(ctx, ["B_C02"], ["P_C03", "P_C04"], invariants=["StatusTruth", "QuietPods"], properties=["Converges"], faults=0, fails=0)
+    cluster_check(ctx, ["B_C02"], ["P_C03", "P_C04"], invariants=["StatusTruth", "QuietPods"], properties=["Converges"], faults=0, fails=0, sim_claims=2)
     ctx.assumptions.append("liveness is established on the model under weak fairness (TLC, exhaustive for 2 ordinals) and, on the code, as "
                            "bounded convergence of a fair schedule from every replayed and random behaviour")
 
